@@ -20,6 +20,7 @@ Inductive op :=
 | OSetTags (o : nat) (v : list string)    (* in-place change of node.tags *)
 | OSetExtras (o : nat) (v : jv)
 | OCopy                                    (* continue on copy.deepcopy(graph) *)
+| OReorder (l : list nat)                  (* graph.nodes = a permutation of graph.nodes *)
 | OQTrav (a o : nat)
 | OQSurface (a : nat)
 | OQUpdate (a : nat) (cur nodes : list nat)
@@ -68,6 +69,7 @@ Definition guard (s : st) (o : op) : bool :=
   | OPrune => true
   | OSetFlags o _ _ | OSetTtc o _ | OSetTags o _ | OSetExtras o _ => Nat.ltb o (s_nn s)
   | OCopy => closed s && nodupb (g_nodes (s_g s)) && nodupb (g_atts (s_g s))
+  | OReorder l => nodupb l && forallb (in_graph s) l && forallb (fun o => memn o l) (g_nodes (s_g s))
   | OQTrav a o => att_in_graph s a && in_graph s o
   | OQSurface a => att_in_graph s a
   | OQUpdate a cur nodes => att_in_graph s a && forallb (in_graph s) cur && forallb (in_graph s) nodes
@@ -126,6 +128,7 @@ Definition step (s : st) (o : op) : st * outcome * ret :=
   | OSetTags o v => (with_nh s (updn (s_nh s) o (fun n => set_tags n v)), Ok, RetNone)
   | OSetExtras o v => (with_nh s (updn (s_nh s) o (fun n => set_extras n v)), Ok, RetNone)
   | OCopy => (deepcopy s, Ok, RetNone)
+  | OReorder l => (mkSt (s_nh s) (s_ah s) (s_nn s) (s_na s) (g_set_nodes (s_g s) l), Ok, RetNone)
   | OQTrav a o => (s, Ok, RetBool (traversable (s_nh s) a o))
   | OQSurface a => (s, Ok, RetList (attack_surface (s_nh s) (s_ah s) a))
   | OQUpdate a cur nodes => (s, Ok, RetList (update_surface (s_nh s) a cur nodes))
